@@ -631,6 +631,8 @@ func (ex *Exec) evalBinary(env *Env, x *EBinary) Val {
 		}
 		return scalar(bt, e)
 	}
+	ex.noOblige++
+	defer func() { ex.noOblige-- }()
 	return ex.binop(env.fr, env.st.clone(), op, a, b, rt, token.NoPos)
 }
 
